@@ -113,9 +113,74 @@ def check_recipe(r, tier, seed, rep=None, want=None):
     return fails
 
 
+def check_param_phase(r, tier, seed, rep=None, want=None):
+    """Recipes with a Parameter: the gradient expression is built while the parameter holds 1.0 / 0.0 (the values
+    around which simplifications fire), then the parameter is updated and the SAME gradient object is evaluated."""
+    from optyx.core import autodiff
+    from checks.common import Case as _Case
+    import checks.common as CC
+
+    fails = Fails(want)
+    for p0, p1 in ((1.0, 2.5), (0.0, 1.5), (2.0, 1.0)):
+        old = CC.PVAL
+        CC.PVAL = p0
+        try:
+            c = _Case(r, tier, seed)
+        finally:
+            CC.PVAL = old
+        if c.skip or not c.pnames:
+            return fails
+        wrt = c.names + [FOREIGN]
+        V = c.b.variables_for(wrt)
+        try:
+            ges = [autodiff.gradient(c.e, var) for var in V]
+        except Exception as ex:
+            fails.add("exception:gradient:param-phase:" + type(ex).__name__, msg=str(ex)[:200], p0=p0)
+            continue
+        for pn in c.pnames:
+            c.b.parameter(pn).set(p1)
+        c.params = {pn: p1 for pn in c.pnames}
+        try:
+            v, g, H, ok, reg, ev, eg, eH = c.jets(wrt)
+        except Exception:
+            continue
+        for k in np.flatnonzero(ok & reg):
+            pd = c.point(k)
+            pd.setdefault(FOREIGN, 0.125)
+            bad = False
+            for i, ge in enumerate(ges[:-1]):
+                if rep:
+                    rep.evaluations += 1
+                try:
+                    got = float(np.asarray(ge.evaluate(pd)).reshape(-1)[0])
+                except Exception as ex:
+                    fails.add("exception:evaluate-gradient:param-phase:" + type(ex).__name__, msg=str(ex)[:200])
+                    bad = True
+                    break
+                if not close(got, g[i][k], eg[i][k], REL_D):
+                    fails.add("gradient-ignores-parameter-update", wrt=wrt[i], built_at=p0, now=p1, point=pd, got=got,
+                              expected=float(g[i][k]))
+                    bad = True
+                    break
+            if bad:
+                break
+        if rep:
+            rep.transitions += len(V) + len(c.pnames)
+    return fails
+
+
+def check_both(r, tier, seed, rep=None, want=None):
+    fs = check_recipe(r, tier, seed, rep, want)
+    if size(r) <= 6:
+        fs2 = check_param_phase(r, tier, seed, rep, want)
+        for k, d in fs2:
+            fs.append((k, d))
+    return fs
+
+
 def explore(item, tier, seed):
-    return std_explore(check_recipe, item, tier, seed, layer_recipes(item, tier))
+    return std_explore(check_both, item, tier, seed, layer_recipes(item, tier))
 
 
-culprit = std_culprit(check_recipe)
-replay = std_replay(check_recipe)
+culprit = std_culprit(check_both)
+replay = std_replay(check_both)
